@@ -169,3 +169,13 @@ def check_no_miss(reg, src, prop, n=1):
                     ex.prove(s, ctx, z3.Implies(z3.And(sc, z3.Not(i_["capped"]), dir_ok, *hyp), z3.Or(reported, cut)), "post",
                              "certified-sign-change-is-reported#path%d.ev%d" % (k, idx))
     return fi
+
+
+def job_handle_events(reg, src, prop, n):
+    check_handle_events(reg, src, prop, n)
+    return {}
+
+
+def job_no_miss(reg, src, prop, n):
+    check_no_miss(reg, src, prop, n)
+    return {}
